@@ -34,6 +34,7 @@ Definition fmin x y := if fle x y then x else y.
 
 Definition fone : f64 := b64_of_bits 4607182418800017408.     (* 1.0 *)
 Definition feps : f64 := b64_of_bits 4372995238176751616.     (* f64::EPSILON = 2^-52 *)
+Definition fzero : f64 := b64_of_bits 0.                       (* +0.0 *)
 
 Record row := { r_fmt : string; r_ty : string; r_nz : string; r_min : f64; r_max : f64 }.
 
@@ -133,7 +134,12 @@ Definition choose_integer (format : option string) (b : bounds) (d : dflt) : out
         match fit_type min max with
         | Some ty => Chosen ty
         | None => if match format with Some f => String.eqb f "uint64" | None => false end
-                  then Chosen "u64" else Chosen "i64"
+                  then (* values of this format may exceed i64::MAX; none is negative *)
+                       match d with
+                       | Some (Some v) => if flt v fzero then ErrInvalidValue else Chosen "u64"
+                       | _ => Chosen "u64"
+                       end
+                  else Chosen "i64"
         end
       else ErrInvalidValue in
   match frow with
